@@ -319,7 +319,8 @@ class Resource(AbstractResource):
         *,
         expect_handler: _ExpectHandler | None = None,
     ) -> "ResourceRoute":
-        if route := self._routes.get(method, self._any_route):
+        # (routes are kept under the upper-cased method: look it up that way)
+        if route := self._routes.get(method.upper(), self._any_route):
             raise RuntimeError(
                 "Added route will never be executed, "
                 f"method {route.method} is already "
